@@ -118,6 +118,7 @@ ConvWhy(o, op, a, res) ==
 
 \* conversions and queries return new values: the harness reports an operand whose arrays differ after the call
 EventWhy(o, ev) == IF ev.ret.kind = "operand-changed" THEN "operand-changed-by-the-call"
+                   ELSE IF ev.ret.kind = "result-shares-storage" THEN "result-shares-storage-with-the-operand"
                    ELSE ConvWhy(o, ev.op, ev.args, ev.ret)
 
 ---------------------------------------------------------------------------
